@@ -32,9 +32,13 @@ type rt struct {
 var hostUniverse = []string{
 	"", "", "foo.com", "a.foo.com", "b.a.foo.com", "*.foo.com", "*.a.foo.com", "*.com", "*",
 	"bar.com", "foo.com:80", "foo.com:443", "foo.com:8080", "*.foo.com:8080", "*.com:8080", "*.foo.com:80", "x-1.foo.com",
+	// names and addresses that end in the digits (or the colon) of a default port
+	"web80", "web80:80", "node0", "node0:80", "10.0.0.43", "10.0.0.43:443", "h443:443", "app8:8080", "*.web80",
 }
 
-var prefixPaths = []string{"/", "/a", "/a/b", "/A/b", "/ab", "/a/b/c", "/A", "/b", "/a/B/c", "/straße", "/STRAẞE/x", "/Kelvin", "/kelvin/k", "/Ⱥ", "/ⱥ/z"}
+var prefixPaths = []string{"/", "/a", "/a/b", "/A/b", "/ab", "/a/b/c", "/A", "/b", "/a/B/c", "/straße", "/STRAẞE/x", "/Kelvin", "/kelvin/k", "/Ⱥ", "/ⱥ/z",
+	// written with empty, "." and ".." segments and with a trailing slash: route paths are compared as written
+	"/a//b", "/a/./b", "/a/../b", "/a/b/", "//a", "/a/"}
 var globPaths = []string{"/", "/*", "/a", "/a*", "/a/*", "/a/b", "/a/b*", "/a/b/*", "/ab*", "/b*", "/a/b/c*", "/a//*", "/a/./b*", "/a/../*"}
 
 func mixCase(t *rapid.T, s string) string {
